@@ -26,9 +26,10 @@ THEOREMS = {
         "C15_facts_wf", "C15_facts_api", "C15_facts_dispatch", "C15_backoff_step", "C15_backoff", "C15_holds", "C15_backoff_fails_without_flag",
         "C15_interrupts_postpone_recovery", "C15_api_propagates", "C15_api_nil_only_if_all_ok", "C15_dispatch_after_pop", "C15_one_push_per_pop",
         "C15_iter_calls", "C15_no_double_fire", "C15_deadline_not_postponed", "C15_recovers",
-        "C15_no_spin_on_spurious_empty", "C15_spurious_empty_spins_unrepaired"]] +
+        "C15_no_spin_on_spurious_empty", "C15_spurious_empty_spins_unrepaired", "C15_no_spin_on_empty_pop",
+        "C15_empty_pop_spins_unrepaired", "C15_honest_empty_pop", "C15_empty_queue_keeps_polling"]] +
            [("QuartzModel.Proofs.FaultsLemmas", "Faults.no_tick_before"), ("QuartzModel.Proofs.FaultsLemmas", "Faults.runQ_nodup"),
-            ("QuartzModel.Proofs.FaultsLemmas", "Faults.iter_spurious")],
+            ("QuartzModel.Proofs.FaultsLemmas", "Faults.iter_spurious"), ("QuartzModel.Proofs.FaultsLemmas", "Faults.backoff_after")],
     "C16": [("QuartzModel.Theorems.MissingJobs", "Facts.missing_none_jobs")] + [("QuartzModel.Theorems.C16", "Jobs." + t) for t in [
         "C16_facts_tests", "C16_facts_function", "C16_facts_shell", "C16_facts_curl", "C16_facts_accessors",
         "C16_function_status_iff", "C16_shell_status_iff", "C16_status_total", "C16_shell_status_exit", "C16_curl_status_iff",
